@@ -1882,8 +1882,12 @@ def own_occurrence_cases(run: Run, W: World, G=None):
         st.count('own-occurrence:declaration:' + got[:11])
         if got != spec:
             # the trigger: `(function(` ... `) as ` ... `)` followed by an occurrence indicator inside another type
+            # on a tree with parenthesised item types the finding is the static rejection only: another answer than the
+            # expected one (the indicator silently moved to the return type, the parentheses kept in a matched text)
+            # is a violation
             run.disagree(Disagreement({'expr': expr}, got, None, spec, what='own-occurrence-nested',
-                                      site='_InlineFunction.nud append_sequence_type', tags=['F18w']))
+                                      site='_InlineFunction.nud append_sequence_type',
+                                      tags=['F18w'] if got == 'E:XPST0003' or not tree_has('paren') else []))
 
 
 COLLATION_LAST = {'fn:contains#3', 'fn:contains-token#3', 'fn:distinct-values#2', 'fn:max#2', 'fn:min#2', 'fn:starts-with#3',
@@ -2157,6 +2161,24 @@ def fixed_judgements(W: World):
         for ret in (star, a('xs:integer', '?'), a('xs:integer')):
             for item, t in (m_str, m_int, arr):
                 out.append((('F', [a(key)], ret), ([item], '1 ' + t), 0))
+    # arrays passed where an atomic type is declared: atomized by the function conversion rules (not by matching)
+    ev = lambda src: W.P.parse(src).evaluate(ctx)  # noqa: E731
+    ci, cs_ = cls(int), cls(str)
+    arrays = [(ev('[1, 2]'), f'r 2 1 a {ci} 1 a {ci}'), (ev('[1]'), f'r 1 1 a {ci}'), (ev('[]'), 'r 0'),
+              (ev('[[1], [2, 3]]'), f'r 2 1 r 1 1 a {ci} 1 r 2 1 a {ci} 1 a {ci}'),
+              (ev('[(1, 2), ()]'), f'r 2 2 a {ci} a {ci} 0'), (ev('[1, "a"]'), f'r 2 1 a {ci} 1 a {cs_}'),
+              (ev('["a"]'), f'r 1 1 a {cs_}')]
+    cu = L.val_names.index('UntypedAtomic')
+    arrays += [(ev('[xs:untypedAtomic("1"), xs:untypedAtomic("2")]'), f'r 2 1 a {cu} 1 a {cu}'),
+               (ev('[xs:untypedAtomic("1"), 2]'), f'r 2 1 a {cu} 1 a {ci}')]
+    # (values are abstracted to their class: an xs:untypedAtomic that cannot be cast, "x", is outside the model)
+    for ty_of in [(lambda o, n=n: a(n, o)) for n in ('xs:integer', 'xs:double', 'xs:string', 'xs:anyAtomicType',
+                                                      'xs:decimal')] + [lambda o: ('L', ('num',), o)]:
+        for o in '1?*+':
+            for item, t in arrays:
+                out.append((ty_of(o), ([item], '1 ' + t), 0))
+            out.append((ty_of(o), ([arrays[1][0], arrays[0][0]], f'2 {arrays[1][1]} {arrays[0][1]}'), 0))
+            out.append((ty_of(o), ([arrays[1][0], 5], f'2 {arrays[1][1]} a {ci}'), 0))
     # kind tests with a type argument against every node of the two documents (no schema is bound)
     names = L.atom_names
     tas = ['untyped', 'anyType', 'anySimple', ('a', ix('xs:untypedAtomic')), ('a', ix('xs:anyAtomicType')),
@@ -2281,9 +2303,9 @@ def lean_ty(ty) -> str:
     return f'(.array {lean_ty(ty[1])} {occ[ty[2]]})'
 
 
-def cast_rows():
+def cast_rows(numeric=False):
     """castRows[c][t]: class index of XPathToken.cast_to_primitive_type(sample of class c, 'xs:<t>*') (c itself when the
-    value comes back as it was, or when the class has no sample)"""
+    value comes back as it was, or when the class has no sample); numeric=True: the single row for 'xs:numeric*'"""
     from elementpath.xpath31 import XPath31Parser
     L = live()
     tk = XPath31Parser().parse('1')
@@ -2294,7 +2316,7 @@ def cast_rows():
     rows = []
     for c in range(len(L.val_cls)):
         row = []
-        for name in L.atom_names:
+        for name in (L.atom_names if not numeric else ['xs:numeric']):
             r = c
             if c in sample:
                 try:
@@ -2305,7 +2327,7 @@ def cast_rows():
                     r = c
             row.append(r)
         rows.append(row)
-    return rows
+    return rows if not numeric else [r[0] for r in rows]
 
 
 def translate(run: Run) -> dict:
@@ -2344,6 +2366,7 @@ def translate(run: Run) -> dict:
            f'  anyAtomic := {names.index("xs:anyAtomicType")}',
            f'  integer := {names.index("xs:integer")}',
            '  castRows := [' + ', '.join(lean_list(r) for r in cast_rows()) + ']',
+           '  castNumRow := ' + lean_list(cast_rows(numeric=True)),
            '',
            '/-- the specification\'s view: an XSD 1.0 processor does not know the XSD 1.1-only types -/',
            'def specTables (xsd11 : Bool) : SpecTables where',
@@ -2374,9 +2397,10 @@ def body(run: Run) -> int:
                          'harness/c18.py::parse_st / render (sequence type text <-> AST) and the value tokeniser',
                          'the assignment value class -> XSD type name (cls.name along the MRO; bool/int/float/Decimal/str by hand)']
     run.assumptions += ['isinstance against a builtin atomic type depends only on the class of the value (checked per class, not per value)',
-                        'element / attribute / PI names without namespaces; no schema (type annotations xs:untyped / xs:untypedAtomic)',
-                        'documents with exactly one element child',
-                        'typed function tests whose argument types contain a typed function or map test are outside the model (string splitting), explored on the real code only']
+                        'no schema is bound (type annotations xs:untyped / xs:untypedAtomic); names are (namespace, local) pairs under four parser configurations',
+                        'documents with at most one element child (hypothesis docsWellFormed of instance_of_eq_match_partial)',
+                        'values are abstracted to their class: the cast of the function conversion rules is the cast of one sample per class',
+                        'a typed function test with an occurrence indicator of its own has no AST: modelled at the top level of instance of / treat as only']
     run.prove(['EPV.Props.C18', 'EPV.Props.C18Tables'], ['EPV.Spec.XPathTypes', 'EPV.Gen.C18Tables', 'EPV.Lemmas.SeqTypeSpec', 'EPV.Lemmas.SeqTypeHist', 'EPV.Lemmas.SeqTypeText', 'EPV.Lemmas.SeqTypeErr'])
     try:
         correspond(run)
